@@ -85,6 +85,7 @@ def make_recursion(length, calls, N, coef, seeds):
                     value = coef[-1]
                     for k in range(length): value = value + coef[k] * hist[len(hist) - 1 - k]
                 calls.append(('compute', i))
+                treelog.info(f'computing item {i}')      # every computed item logs exactly one message
                 yield value
                 hist.append(value); hist = hist[-length:] if length else []
                 i += 1
@@ -162,6 +163,12 @@ def recursion_case(item):
         for i in range(k):
             st = fs.files.get('{:04d}'.format(i))
             claims.append((f'file {i} complete afterwards', SBool(z3.BoolVal(st is not None and st[0] == 'complete')) & (lift(st[1][2]) == truth[i] if st and st[0] == 'complete' and st[1][2] is not None else SBool(z3.BoolVal(False)))))
+        # what this run stored: the entry of item i must carry the log of item i and nothing else (it is what later runs replay for that item)
+        for name in fs.dumps:
+            st = fs.files.get(name)
+            if st and st[0] == 'complete' and not st[1][1]:
+                msgs = [m_[1] for m_ in getattr(st[1][0], '_messages', []) if m_[0] == 'write']
+                claims.append((f'entry {int(name)} written in this run stores exactly the log of its own item', SBool(z3.BoolVal(msgs == [f'computing item {int(name)}']))))
         for label, cl in claims:
             r, m = S.holds(cl, pc=P.pc, timeout_ms=10000)
             if r == 'unsat': out['proved'] += 1
@@ -324,6 +331,7 @@ def replay_recursion(length, M, next_state, model):
             while i < N:
                 if i < length and len(hist) == i: value = seeds[i]
                 else: value = coef[-1] + sum(coef[k] * hist[len(hist) - 1 - k] for k in range(length))
+                treelog.info(f'computing item {i}')
                 yield value
                 hist.append(value); hist = hist[-length:]; i += 1
         def resume_index(self, history, index):
@@ -344,9 +352,15 @@ def replay_recursion(length, M, next_state, model):
                 elif next_state == 'garbage': files[n].write_bytes(b'\x80\x04garbage!')
             try:
                 got = list(itertools.islice(iter(Rec('t')), M))
+                # a further run, entirely from the cache: values and the replayed log must be those of an uncached run (one message per item, in order)
+                rl = treelog.RecordLog()
+                with treelog.set(rl): again = list(itertools.islice(iter(Rec('t')), M))
             except Exception as ex:
                 return True, f'raised {type(ex).__name__}: {ex}'
     if got != truth: return True, f'cached iteration gives {got}, uncached gives {truth} (n={n}, N={N}, next file {next_state})'
+    msgs = [m_[1] for m_ in rl._messages if m_[0] == 'write']
+    if again != truth or msgs != [f'computing item {i}' for i in range(len(truth))]:
+        return True, f'a run served from the cache yields {again} and replays the log {msgs}; the uncached run yields {truth} and logs one message per item (n={n}, N={N}, next file {next_state})'
     return False, 'agree'
 
 def main(argv=None):
